@@ -183,6 +183,7 @@ static void gen_comp(hctx* h) {
     { static const size_t bn[] = { (1u << 21) - 1, 1u << 21, (1u << 21) + 1, (1u << 22) + 5, 5u << 20, (3u << 21) + 77, (1u << 23) + 9 };
       for (unsigned i = 0; i < sizeof bn / sizeof bn[0]; i++) do_comp_big(h, bn[i], (int)(i % 2));
       do_comp_big(h, (1u << 22) + 4097, 2);
+      do_comp_big(h, (17u << 20) + 5, 2);      /* incompressible and above 2^24 bytes: one literal whose length needs four bytes */
       if (h->thorough) { do_comp_big(h, (1u << 28) - 1, 0); do_comp_big(h, (1u << 28) + 3, 1); } }
     long m = h->thorough ? 6000 : 500;
     for (long i = 0; i < m; i++) {
